@@ -108,6 +108,8 @@ class Individual(metaclass=ABCMeta):
         diff = 1
         for i in range(len(self.vector)):
             diff = abs(self.vector[i] - other.vector[i])
+            if diff >= 1e-10:
+                break
         return diff < 1e-10
 
     def __hash__(self):
